@@ -30,17 +30,18 @@ GInit == /\ adj = Adj0
          /\ adding = [n \in Node |-> [b \in Block |-> 0]]
          /\ rq = [r \in Req |-> NoReq]
          /\ delivered = [r \in Req |-> <<>>]
-         /\ larr = [r \in Req |-> {}]
+         /\ larr = [r \in Req |-> {}] /\ lsure = [r \in Req |-> {}]
          /\ sess = [s \in Sess |-> IF s = 1 THEN [st |-> "open", node |-> 1] ELSE NoSess]
          /\ wl = [n \in Node |-> {}] /\ fresh = [n \in Node |-> FALSE]
          /\ hist = <<>> /\ nadd = 0 /\ nreq = 0
 
 SeqOf(S) == [i \in 1..Cardinality(S) |-> CHOOSE b \in S : Cardinality({c \in S : c < b}) = i - 1]
-Deliverable(r) == {b \in Awaited(r) : Reachable(rq[r].node, b) \/ b \in larr[r]}
+Deliverable(r) == {b \in Awaited(r) : Reachable(rq[r].node, b) \/ b \in lsure[r]}
 
 GReq == /\ nreq < MaxReqs
         /\ \E s \in SessChoices, c \in ReqChoices :
-             /\ Request(nreq + 1, 1, s, c.kind, c.keys)
+             \* the script thread goes on after GetBlocks returned (subscription in place); GetBlock runs aside
+             /\ RequestI(nreq + 1, 1, s, c.kind, c.keys, c.kind = "GetBlocks")
              /\ hist' = Append(hist, [op |-> "req", r |-> nreq + 1, node |-> 1, s |-> s, kind |-> c.kind, keys |-> c.keys])
         /\ nreq' = nreq + 1 /\ UNCHANGED <<nadd, has0>>
 
@@ -50,7 +51,7 @@ GAwaitAll == \E r \in Req :
         /\ \A b \in Deliverable(r) : \E f \in Node \cup {0} : Source(r, b, f)
         /\ delivered' = [delivered EXCEPT ![r] = @ \o SeqOf(Deliverable(r))]
         /\ hist' = Append(hist, [op |-> "await", r |-> r, k |-> Len(delivered[r]) + Cardinality(Deliverable(r))])
-        /\ Stale /\ UNCHANGED <<adj, has, adding, rq, larr, sess, nadd, nreq, has0>>
+        /\ Stale /\ UNCHANGED <<adj, has, adding, rq, larr, lsure, sess, nadd, nreq, has0>>
 
 GCancel == \E r \in Req : /\ ~rq[r].canc /\ Cancel(r)
                           /\ hist' = Append(hist, [op |-> "cancel", r |-> r])
@@ -64,6 +65,7 @@ GAdd == /\ nadd < MaxAdds
              /\ b \notin has[n]
              /\ has' = [has EXCEPT ![n] = @ \cup {b}]
              /\ larr' = [r \in Req |-> IF r \in OpenAt(n) THEN larr[r] \cup {b} ELSE larr[r]]
+             /\ lsure' = [r \in Req |-> IF r \in OpenAt(n) /\ rq[r].iss THEN lsure[r] \cup {b} ELSE lsure[r]]
              /\ hist' = Append(hist, [op |-> "add", node |-> n, b |-> b])
         /\ nadd' = nadd + 1
         /\ Stale /\ UNCHANGED <<adj, adding, rq, delivered, sess, nreq, has0>>
@@ -76,7 +78,7 @@ GStep == GReq \/ GAwaitAll \/ GCancel \/ GClose \/ GAdd \/ GCSess
 GNext == Len(hist) < D /\ GStep
 GSpec == GInit /\ [][GNext]_gvars
 
-Issued == {r \in Req : rq[r].st # "none"}
+IssuedReqs == {r \in Req : rq[r].st # "none"}
 Expect(r) == [r |-> r,
               must |-> Got(r) \cup (IF Open(r) /\ ~rq[r].canc /\ Obligated(r) THEN Deliverable(r) ELSE {}),
               may  |-> {b \in KeySet(r) : Reachable(rq[r].node, b) \/ b \in larr[r]},
@@ -84,7 +86,7 @@ Expect(r) == [r |-> r,
 Script == [n |-> MaxNode, nb |-> MaxBlock, edges |-> <<<<1, 2>>, <<1, 3>>>>,
            has |-> [n \in Node |-> SeqOf(has0[n])], delay |-> 0, big |-> SeqOf(BigBlocks),
            threads |-> << <<[op |-> "sess", s |-> 1, node |-> 1]>> \o hist >>,
-           expect |-> [i \in 1..Cardinality(Issued) |-> Expect(i)]]
+           expect |-> [i \in 1..Cardinality(IssuedReqs) |-> Expect(i)]]
 
 Emit == Len(hist) < D \/ PrintT(<<"BEHAVIOUR", ToJson(Script)>>)
 
@@ -96,7 +98,7 @@ Flush == /\ Len(hist) >= D
          /\ adding' = [n \in Node |-> [b \in Block |-> 0]]
          /\ rq' = [r \in Req |-> NoReq]
          /\ delivered' = [r \in Req |-> <<>>]
-         /\ larr' = [r \in Req |-> {}]
+         /\ larr' = [r \in Req |-> {}] /\ lsure' = [r \in Req |-> {}]
          /\ sess' = [s \in Sess |-> IF s = 1 THEN [st |-> "open", node |-> 1] ELSE NoSess]
          /\ wl' = [n \in Node |-> {}] /\ fresh' = [n \in Node |-> FALSE]
          /\ hist' = <<>> /\ nadd' = 0 /\ nreq' = 0
